@@ -341,6 +341,9 @@ type caseDesc struct {
 	NoSugg  bool     `json:"disable_suggestion"`
 	History []string `json:"history"`
 	Request reqSpec  `json:"request"`
+	// Via: "" = the executor API; "cancelled" = the same with an already cancelled request
+	// context; "post" / "ws" = through that transport of a handler.Server (via.go)
+	Via string `json:"via,omitempty"`
 }
 
 func newExecutor(log *handschema.Log, exts []string, cache string, noSugg bool, tokenLimit ...int) *executor.Executor {
@@ -365,6 +368,9 @@ func newExecutor(log *handschema.Log, exts []string, cache string, noSugg bool, 
 }
 
 func checkCase(c *common.Check, cd caseDesc, byName map[string]reqSpec) (nontrivial bool) {
+	if cd.Via != "" {
+		return checkVia(c, cd)
+	}
 	log := &handschema.Log{}
 	ex := newExecutor(log, cd.Exts, cd.Cache, cd.NoSugg, cd.Request.TokenLimit)
 	for _, h := range cd.History {
@@ -507,6 +513,26 @@ func sequentialShard(tier string, shard, n int, deadline time.Time) seqResult {
 							res.Sample = append(res.Sample, cd)
 						}
 					}
+				}
+			}
+		}
+	}
+	// the other ways into the executor (via.go): every request x extension lists of length <= 2
+	for _, exts := range extLists(2) {
+		for _, via := range viaKinds {
+			for _, r := range rs {
+				me := idx%n == shard
+				idx++
+				if !me {
+					continue
+				}
+				if !deadline.IsZero() && time.Now().After(deadline) {
+					res.Complete = false
+					return res
+				}
+				res.Evaluations++
+				if checkCase(shim, caseDesc{Exts: exts, Cache: "none", Request: r, Via: via}, byName) {
+					res.Nontrivial++
 				}
 			}
 		}
